@@ -79,6 +79,8 @@ def run(tier, runner):
     real = matrix.real_programs(runner, tier)
     r_w = encoding.enc_w(progs + real)
     r_r = encoding.enc_r(progs + real)
+    r_es = encoding.enc_sib(progs + real)
+    r_es.require(3, 'the three encoders')
     r_span = shape2.inline_span(vp)
     r_it = shape2.iter1(progs + sprogs)
     r_ov = shape2.overlap(vp)
@@ -97,10 +99,10 @@ def run(tier, runner):
     r_cd.require(20, 'constructs into container storage')
     r_tail.require(12, 'size commits')
     return {
-        'results': [r_w, r_r, r_span, r_it, r_ov, r_cd, r_tail, r_alias] + r_sig,
+        'results': [r_w, r_r, r_es, r_span, r_it, r_ov, r_cd, r_tail, r_alias] + r_sig,
         'explanation': 'C01 as stated (equality of sequences with std::vector over histories) is a statement about run-time values and is not decided.  '
                        'Decided: structural clauses, each necessary for it.  ENC-W / ENC-R: the inline size/capacity words of SmallVector are written only '
-                       'by the encoders, jointly, or on an object known to be large, and every value read of `_size` honours the full marker.  '
+                       'by the encoders, jointly, or on an object known to be large, and every value read of `_size` honours the full marker; ENC-SIB: the three encoders themselves agree on the discipline (count in `_capa`, marker set when the count reaches N, N restored under the marker before `_capa` changes, large branch writes only `_size`).  '
                        'INLINE-SPAN: the N inline slots lie inside the object and nothing else lives there (record layout of every inline instantiation).  '
                        'ITER1: range members instantiated with a single-pass iterator traverse it once.  OVERLAP: erase of an empty range performs no '
                        'element operation (no self move assignment).  CHECK-DOM: no operation, including the move/swap bookkeeping of the bases, '
